@@ -212,10 +212,10 @@ namespace nmtools::utils
                     if constexpr (meta::is_either_v<lhs_t>) {
                         // maybe nested either
                         // should be okay to instantiate since *ptr is either
-                        close = isclose(*l_ptr,u);
+                        close = isclose(*l_ptr,u,eps);
                     } else if constexpr (same_concept(lhs,ref)) {
                         // avoid instantiate if not the same concept
-                        close = isclose(*l_ptr,u);
+                        close = isclose(*l_ptr,u,eps);
                     } else {
                         // maybe encountered in nested either
                         // ignore, maybe this path doesn't have matched concept
@@ -226,10 +226,10 @@ namespace nmtools::utils
                     if constexpr (meta::is_either_v<rhs_t>) {
                         // maybe nested either
                         // should be okay to instantiate since *ptr is either
-                        close = isclose(*r_ptr,u);
+                        close = isclose(*r_ptr,u,eps);
                     } else if constexpr (same_concept(rhs,ref)) {
                         // avoid instantiate if not the same concept
-                        close = isclose(*r_ptr,u);
+                        close = isclose(*r_ptr,u,eps);
                     } else {
                         // maybe encountered in nested either
                         // ignore, maybe this path doesn't have matched concept
@@ -248,13 +248,13 @@ namespace nmtools::utils
                 if (auto l_ptr = get_if<lhs_t>(&u); l_ptr) {
                     constexpr auto lhs = meta::as_value_v<meta::resolve_optype_t<unwrap_t,lhs_t>>;
                     if constexpr (same_concept(lhs,ref)) {
-                        close = isclose(t,*l_ptr);
+                        close = isclose(t,*l_ptr,eps);
                     }
                 } else /* if (auto r_ptr = get_if<rhs_t>(&u); r_ptr) */ {
                     [[maybe_unused]] auto r_ptr = get_if<rhs_t>(&u);
                     constexpr auto rhs = meta::as_value_v<meta::resolve_optype_t<unwrap_t,rhs_t>>;
                     if constexpr (same_concept(rhs,ref)) {
-                        close = isclose(t,*r_ptr);
+                        close = isclose(t,*r_ptr,eps);
                     }
                 }
                 return close;
@@ -279,22 +279,40 @@ namespace nmtools::utils
                 auto isclose_impl = [](auto lhs, auto rhs, auto eps) {
                     return constexpr_fabs(lhs-rhs) < eps;
                 };
+                constexpr auto static_dim_mismatch = [](){
+                    constexpr auto t_fdim = meta::fixed_dim_v<T>;
+                    constexpr auto u_fdim = meta::fixed_dim_v<U>;
+                    if constexpr (!meta::is_fail_v<decltype(t_fdim)> && !meta::is_fail_v<decltype(u_fdim)>) {
+                        return t_fdim != u_fdim;
+                    } else {
+                        return false;
+                    }
+                }();
+                if constexpr (static_dim_mismatch) {
+                    return false;
+                } else {
                 bool close = true;
-                // TODO: static assert whenever possible
-                // NOTE: use assert instead of exception, to support compile with -fno-exceptions
-                // TODO: use maybe type
                 auto t_shape = ::nmtools::shape(t);
                 auto u_shape = ::nmtools::shape(u);
-                nmtools_cassert( ::nmtools::utils::isequal(t_shape,u_shape)
-                    , "shape mismatch for isclose"
-                );
+                // arrays of different dimension or shape are not close (no flat comparison)
+                if ((nm_size_t)::nmtools::dim(t) != (nm_size_t)::nmtools::dim(u)) {
+                    return false;
+                }
                 auto t_indices = ndindex(t_shape);
                 auto u_indices = ndindex(u_shape);
                 auto numel = t_indices.size();
+                if ((nm_size_t)numel != (nm_size_t)u_indices.size()) {
+                    return false;
+                }
+                // same dimension and same size: the shapes are equal iff the last multi-indices are
+                if ((numel > 0) && !::nmtools::utils::isequal(t_indices[numel-1],u_indices[numel-1])) {
+                    return false;
+                }
                 for (size_t i = 0; i<numel; i++) {
                     close = close && isclose(apply_at(t, t_indices[i]), apply_at(u, u_indices[i]), eps);
                 }
                 return close;
+                } // static_dim_mismatch
             } else {
                 return error::ISCLOSE_UNSUPPORTED<T,U>{};
             }
